@@ -171,6 +171,7 @@ class Compiler:
         "+": OpCode.ADD,
         "-": OpCode.SUB,
         "*": OpCode.MUL,
+        "**": OpCode.POW,
         "/": OpCode.DIV,
         "%": OpCode.MOD,
         "&": OpCode.BAND,
@@ -1586,6 +1587,7 @@ class Compiler:
                         "+": OpCode.ADD,
                         "-": OpCode.SUB,
                         "*": OpCode.MUL,
+                        "**": OpCode.POW,
                         "/": OpCode.DIV,
                         "%": OpCode.MOD,
                         "&": OpCode.BAND,
